@@ -85,6 +85,10 @@ pub const POOL: &[&str] = &[
     "\"héllo\" ~# :k",
     ":total == (\"total\" ~# :k)",
     ":other ~# \"\"",
+    // lists the runtime makes (header reserved first, items created afterwards)
+    "\"abc\" ~# (1, 2)",
+    "'ab' ~# (,)",
+    "(\"abc\" ~# (1, 2)) . 1",
 ];
 
 /// one-constant programs whose constants are near misses of each other: texts, byte lists and symbols of several
